@@ -98,7 +98,7 @@ func genHistory(c *core.Ctx, i int, maxLen int) *history {
 	}
 	// two more special families (C09 only): a block size far above any buffer the writer may have planned for,
 	// and consecutive blocks that differ in content but agree in length and CRC-32
-	giant, twins, exactMiB, manyBlocks := 0, false, false, false
+	giant, twins, exactMiB, manyBlocks, bigSmall := 0, false, false, false, false
 	if j := i - 2*len(cases) - len(sizeSweep); j >= 0 && maxLen > 100 {
 		switch {
 		case j < 3:
@@ -115,8 +115,12 @@ func genHistory(c *core.Ctx, i int, maxLen int) *history {
 			// records whose encoding is exactly 1 MiB, so that blocks are exact multiples of 2^20 bytes (null codec)
 			exactMiB = true
 			giant = []int{2 << 20, 3 << 20, 4 << 20}[j-11]
+		case j < 25:
+			// one record of 1-3 MiB among small ones under a small block size: whatever the encoder does with a
+			// buffer that has grown far beyond its block size, the blocks after it are as exact as the ones before
+			bigSmall = true
 		}
-		if giant > 0 || twins || manyBlocks {
+		if giant > 0 || twins || manyBlocks || bigSmall {
 			for _, sc := range cases {
 				if sc.Name == "HBytes" {
 					h.sc = sc
@@ -157,6 +161,9 @@ func genHistory(c *core.Ctx, i int, maxLen int) *history {
 	if manyBlocks {
 		nv = 2
 	}
+	if bigSmall {
+		nv = 3
+	}
 	sizes := []int{}
 	for k := 0; k < nv; k++ {
 		o := gen.ValOpts{MaxMapEntries: 1, NoBigStrings: r.IntN(4) != 0}
@@ -175,9 +182,12 @@ func genHistory(c *core.Ctx, i int, maxLen int) *history {
 			}
 			v.FieldByName("B").SetBytes(b)
 		}
-		if giant > 0 || twins || manyBlocks {
+		if giant > 0 || twins || manyBlocks || bigSmall {
 			v = reflect.New(h.sc.RT).Elem()
 			n := 16 + r.IntN(200)
+			if bigSmall && k == 0 {
+				n = 1<<20 + 100000 + r.IntN(2<<20)
+			}
 			if manyBlocks && k == 0 {
 				n = 100<<10 + r.IntN(4096)
 			}
@@ -293,6 +303,23 @@ func genHistory(c *core.Ctx, i int, maxLen int) *history {
 		}
 		h.ops = append(h.ops, histOp{flush: true})
 		c.Count("many-block-histories", 1)
+	}
+	if bigSmall {
+		h.bs = []int{0, 1, 64, 1000, 100 << 10, 1 << 20}[r.IntN(6)]
+		h.bsCls = "small/big-then-small"
+		h.ops = nil
+		for k := 0; k < 30+r.IntN(30); k++ {
+			switch x := r.IntN(12); {
+			case k == 2 || x == 0:
+				h.ops = append(h.ops, histOp{val: 0})
+			case x < 4:
+				h.ops = append(h.ops, histOp{flush: true})
+			default:
+				h.ops = append(h.ops, histOp{val: 1 + r.IntN(2)})
+			}
+		}
+		h.ops = append(h.ops, histOp{flush: true}, histOp{flush: true})
+		c.Count("big-then-small-histories", 1)
 	}
 	if twins {
 		h.bs, h.bsCls = 0, "zero/crc32-twins"
@@ -898,7 +925,7 @@ func init() {
 		ID:        "C09",
 		Level:     "exploration",
 		Technique: "runtime monitoring: online trace checker - a recording io.Writer observes the bytes emitted during every Encode/Flush call of a real Encoder[T]; an executable model of the block state machine predicts, call by call, whether a block appears and what it contains",
-		Rule: "histories of 1..200 calls over {encode(record), flush} from (VERIF_SEED, i): static corpus types (records from 0 bytes to several KiB), block sizes {0,1,2,exact record size, size-1, size+1, sum of 3 records, 64, 1000, 1 MiB}, all codecs; shapes include flush first, double flush, flush with nothing pending, records hitting the threshold exactly; three histories with block sizes of 17-32 MiB filled by 1 MiB records; eight histories whose records are CRC-32 twins (same length, same CRC-32, different content) in consecutive blocks; " +
+		Rule: "histories of 1..200 calls over {encode(record), flush} from (VERIF_SEED, i): static corpus types (records from 0 bytes to several KiB), block sizes {0,1,2,exact record size, size-1, size+1, sum of 3 records, 64, 1000, 1 MiB}, all codecs; shapes include flush first, double flush, flush with nothing pending, records hitting the threshold exactly; three histories with block sizes of 17-32 MiB filled by 1 MiB records; eight histories in which records of 1-3 MiB arrive among small ones under block sizes 0..1 MiB; eight histories whose records are CRC-32 twins (same length, same CRC-32, different content) in consecutive blocks; " +
 			"distinct_nontrivial = distinct (type, block-size class, codec, length decile) combinations checked call by call",
 		Explanation: "Model: pending += r on encode; emit when the sum of pending encodings >= blockSize; on flush emit iff pending is non-empty. After every call the new bytes must be empty or exactly one block [canonical count][canonical size][payload][header sync]; count = |pending|; the decompressed payload (independent decompressor) must equal the concatenation of the pending records' encodings, each obtained at codec level and validated by the reference decoder against the value; after flush nothing stays buffered. Every call must return nil.",
 		Assumptions: []string{"map fields hold at most one entry (iteration order)", "record encodings are taken from Codec.Write, validated datum-by-datum by refavro (C02 covers the codecs themselves)"},
